@@ -10,7 +10,7 @@ LEVEL = "exploration"
 RULE = (
     "cases = (accepted VHDL text x, meaning-preserving re-layout t) with x from the repository fixtures (and generated designs) and t drawn "
     "by Hypothesis (level 1: whitespace resize + case; 2: + line split/join at whitespace; 3: + comments at existing line breaks; 4: + comment "
-    "and line break in whitespace gaps); oracle: t(x) accepted and the class sequence, parenthesis pairing and hierarchy of non-whitespace, "
+    "and line break in whitespace gaps; for half of the level 3-4 cases additionally a run of 5-17 comment lines in one randomly chosen whitespace gap); oracle: t(x) accepted and the class sequence, parenthesis pairing and hierarchy of non-whitespace, "
     "non-comment tokens is identical; non-trivial = t performed at least one split/join/comment insertion; distinct by hash(x, t(x))"
 )
 ASSUMPTIONS = [
@@ -98,32 +98,61 @@ def run_case(case, tier):
         sig.update(extra)
         res["failures"].append({"sig": sig, "detail": detail, "case": concrete})
 
-    try:
-        f1 = _parse(new)
-    except common.exceptions.ClassifyError as e:
-        fail("relayout_rejected", {}, {"message": str(getattr(e, "message", e))[:300]})
-        return res
-    except Exception as e:
-        fr = vsgapi.innermost_vsg_frame(e)
-        fail("relayout_crash", {"exc": type(e).__name__, "where": "%s:%s" % (fr[0], fr[1])}, {"message": str(e)[:200]})
-        return res
-    r1 = (roles_of(f1), paren_pairs(f1))
-    a, b = r0[0], r1[0]
-    if [x[1] for x in a] != [x[1] for x in b]:
-        # VSG tokenised the two texts into different code tokens although the lexer says the atoms agree
-        i = next((i for i, (x, y) in enumerate(zip(a, b)) if x[1] != y[1]), min(len(a), len(b)))
-        fail("token_sequence_changed", {}, {"at": i, "orig": [x[1] for x in a[max(0, i - 3) : i + 3]], "new": [x[1] for x in b[max(0, i - 3) : i + 3]]})
-        return res
-    for i, (x, y) in enumerate(zip(a, b)):
-        if x[0] != y[0]:
-            fail("role_changed", {"from": x[0], "to": y[0]}, {"at": i, "context": [t[1] for t in a[max(0, i - 4) : i + 3]]})
-            break
-        if x[2] != y[2] or x[3] != y[3]:
-            fail("attr_changed", {"role": x[0]}, {"at": i, "orig": x[2:], "new": y[2:], "context": [t[1] for t in a[max(0, i - 4) : i + 3]]})
-            break
-    else:
-        if r0[1] != r1[1]:
-            fail("paren_pairing_changed", {}, {})
+    def compare(new, fail):
+        try:
+            f1 = _parse(new)
+        except common.exceptions.ClassifyError as e:
+            fail("relayout_rejected", {}, {"message": str(getattr(e, "message", e))[:300]})
+            return False
+        except Exception as e:
+            fr = vsgapi.innermost_vsg_frame(e)
+            fail("relayout_crash", {"exc": type(e).__name__, "where": "%s:%s" % (fr[0], fr[1])}, {"message": str(e)[:200]})
+            return False
+        r1 = (roles_of(f1), paren_pairs(f1))
+        a, b = r0[0], r1[0]
+        if [x[1] for x in a] != [x[1] for x in b]:
+            # VSG tokenised the two texts into different code tokens although the lexer says the atoms agree
+            i = next((i for i, (x, y) in enumerate(zip(a, b)) if x[1] != y[1]), min(len(a), len(b)))
+            fail("token_sequence_changed", {}, {"at": i, "orig": [x[1] for x in a[max(0, i - 3) : i + 3]], "new": [x[1] for x in b[max(0, i - 3) : i + 3]]})
+            return False
+        for i, (x, y) in enumerate(zip(a, b)):
+            if x[0] != y[0]:
+                fail("role_changed", {"from": x[0], "to": y[0]}, {"at": i, "context": [t[1] for t in a[max(0, i - 4) : i + 3]]})
+                break
+            if x[2] != y[2] or x[3] != y[3]:
+                fail("attr_changed", {"role": x[0]}, {"at": i, "orig": x[2:], "new": y[2:], "context": [t[1] for t in a[max(0, i - 4) : i + 3]]})
+                break
+        else:
+            if r0[1] != r1[1]:
+                fail("paren_pairing_changed", {}, {})
+        return True
+
+    compare(new, fail)
+    # a long run of own-line comments in one whitespace gap (a bounded look-ahead counted in raw list positions would run out)
+    if "lseed" in case and case.get("level", 0) >= 3 and not res["failures"] and not corpus.structurally_sensitive(text):
+        import random
+
+        rnd = random.Random(case["lseed"] ^ 0x5EED)
+        if rnd.random() < 0.5:
+            atoms = lexer.lex(new)
+            cand = [i for i in range(1, len(atoms)) if atoms[i].kind not in ("comment", "pre", "dcomment") and atoms[i - 1].kind not in ("comment", "pre", "dcomment") and new[atoms[i - 1].end : atoms[i].start] != ""]
+            if cand:
+                i = rnd.choice(cand)
+                n = rnd.randint(4, 16)
+                ind = " " * rnd.randint(0, 6)
+                run = [i, "gap", " -- r0\n" + "".join("%s-- r%d\n" % (ind, k + 1) for k in range(n)) + ind]
+                new2 = layout.apply_edits(new, [run], atoms)
+                if layout.self_check(new, new2):
+                    concrete2 = {"text": new, "edits": [run]}
+                    labels["op_comment_run"] = 1
+                    labels["comment_run_len_%s" % ("4-8" if n <= 8 else "9-16")] = 1
+
+                    def fail2(kind, extra, detail):
+                        sig = {"kind": kind}
+                        sig.update(extra)
+                        res["failures"].append({"sig": sig, "detail": detail, "case": concrete2})
+
+                    compare(new2, fail2)
     if common.structural_ops(ops) > 0:
         res["nontrivial"].append(common.h(key, new))
     if not res["failures"]:
